@@ -33,6 +33,12 @@ Inductive el :=
 | Rp (name : str) (kids : list el).
 Definition path := list str.
 
+(* xls2json: the default of an image question is a file name and gets the images prefix (process_image_default: unless the prefix occurs
+   in it) - when it is a literal; an expression is left as it is (defect F103: it used to be prefixed too) *)
+Definition s_images : str := [106;114;58;47;47;105;109;97;103;101;115;47]%N.          (* jr://images/ *)
+Definition image_default (d : str) (dyn : bool) : str :=
+  if nonempty d && negb dyn then (if contains s_images d then d else s_images ++ d) else d.
+
 (* what the node of a question holds: the default, when there is one and it is static *)
 Definition static_text (d : str) (dyn : bool) : str := if nonempty d && negb dyn then d else [].
 
